@@ -79,6 +79,41 @@ def sweepBlock (mark : Bits) (live : List Nat) (v : Bits) (b : Nat × Nat) : Bit
 def gcImmix (v : Bits) (objs : List GObj) (blocks : List (Nat × Nat)) : Bits :=
   blocks.foldl (sweepBlock (marksAfter objs) (liveFwd objs)) (setAll v (liveFwd objs))
 
+/-! ### `Block::sweep` with line marks (src/policy/immix/block.rs, `line_mark_state = Some(_)`), branch for branch
+
+`lineMarked k` = line `k` of the block carries the current line mark state; `nLines` = `Block::LINES` (128).
+The VO bits are refreshed from the mark bits (`on_region_swept(self, true)`) for EVERY block that keeps a marked
+line — after the `if is_reusable { … } else { … }` that only chooses the block state — and zeroed
+(`on_region_swept(self, false)`) for a block without marked lines. -/
+
+inductive SweepResult where
+  /-- `BlockSweepResult::Swept`: no marked line, the block is released -/
+  | swept
+  /-- `BlockSweepResult::Reused`: some but not all lines marked, pushed to `reusable_blocks` -/
+  | reused
+  /-- `BlockSweepResult::NoReuse`: all lines marked, state `Unmarked` -/
+  | noReuse
+  deriving Repr, DecidableEq
+
+def markedLines (lineMarked : Nat → Bool) (nLines : Nat) : Nat := ((List.range nLines).filter lineMarked).length
+
+def sweepBlockLines (mark : Bits) (lineMarked : Nat → Bool) (nLines : Nat) (v : Bits) (b : Nat × Nat) : Bits × SweepResult :=
+  let marked := markedLines lineMarked nLines
+  if marked = 0 then
+    -- on_region_swept(self, false); space.release_block(*self)
+    (bzero v b.1 b.2, .swept)
+  else
+    let isReusable := marked != nLines
+    -- `if is_reusable { set_state(Reusable{..}); reusable_blocks.push } else { set_state(Unmarked) }`, histogram,
+    -- holes: no VO effect. Then, in both cases: on_region_swept(self, true)
+    let v' := bcopy v mark b.1 b.2
+    if isReusable then (v', .reused) else (v', .noReuse)
+
+/-- ImmixSpace with lines: like `gcImmix`, every allocated block swept by `sweepBlockLines`; `lm b` = the line marks
+of block `b` after tracing. -/
+def gcImmixLines (v : Bits) (objs : List GObj) (blocks : List (Nat × Nat)) (lm : Nat × Nat → Nat → Bool) (nLines : Nat) : Bits :=
+  blocks.foldl (fun v b => (sweepBlockLines (marksAfter objs) (lm b) nLines v b).1) (setAll v (liveFwd objs))
+
 /-- MarkCompactSpace::compact: one linear scan in address order. -/
 def gcCompact (v : Bits) (objs : List GObj) : Bits :=
   objs.foldl (fun v o => let v1 := unsetBit v o.ref; if o.live then setBit v1 o.fwd else v1) v
